@@ -6,6 +6,6 @@ if [ -n "$(git status --porcelain --untracked-files=no)" ]; then echo "tryseed: 
 git apply "$P" || { echo "tryseed: patch does not apply"; exit 2; }
 trap 'git -C $R checkout -- . ' EXIT
 for id in "$@"; do
-  out=$(VERIF_NOEVIDENCE=1 /verif/bin/lfscheck -repo $R -verif /verif -prop $id -tier quick -no-evidence 2>&1); rc=$?
+  out=$(VERIF_NOEVIDENCE=1 timeout 900 /verif/bin/lfscheck -repo $R -verif /verif -prop $id -tier quick -no-evidence 2>&1); rc=$?
   echo "== $id rc=$rc"; echo "$out" | grep -E "VIOLATION|instance:|why:|lfscheck:" | head -12
 done
